@@ -469,6 +469,14 @@ ME = "distance3d/mesh.py"
 RB = "distance3d/hydroelastic_contact/_rigid_body.py"
 MP = "distance3d/mpr.py"
 _SEEDLIKE = [
+    M(["C09"], "simplexinfo-move-vertex-partial", "distance3d/gjk/_gjk_original.py", "SimplexInfo._move_vertex", "self.indices_polytope2[new_index] = self.indices_polytope2[old_index]", "", ["R-PARALLEL", "_move_vertex"]),
+    M(["C09"], "simplexinfo-reorder-wrong-source", "distance3d/gjk/_gjk_original.py", "SimplexInfo.reorder", "self.indices_polytope2[ordered_indices]", "self.indices_polytope1[ordered_indices]", ["R-PARALLEL", "reorder"]),
+    M(["C09"], "simplexinfo-first-point-swapped", "distance3d/gjk/_gjk_original.py", "SimplexInfo.set_first_point", "self.indices_polytope1[0] = new_index1", "self.indices_polytope1[0] = new_index2", ["R-PARALLEL", "set_first_point"]),
+    M(["C09"], "simplexinfo-last-spot-row", "distance3d/gjk/_gjk_original.py", "SimplexInfo._move_first_point_to_last_spot", "self.points[self.n_simplex_points] = self.points[0]", "self.points[self.n_simplex_points] = self.points[1]", ["R-PARALLEL", "_move_first_point_to_last_spot"]),
+    M(["C09"], "dottable-face-wrong-entry", "distance3d/gjk/_gjk_original.py", "SimplexInfo.select_face", "self.dot_product_table[2, 1] = self.dot_product_table[idx1, idx2]", "self.dot_product_table[2, 0] = self.dot_product_table[idx1, idx2]", ["R-DOTTABLE", "select_face"], nth=0),
+    M(["C09"], "dottable-selector-orientation", "distance3d/gjk/_gjk_original.py", "SimplexInfo.select_face", "(k, i) if i < k else (i, k)", "(i, k) if i < k else (k, i)", ["R-DOTTABLE", "select_face"]),
+    M(["C09"], "dottable-segment-diagonal", "distance3d/gjk/_gjk_original.py", "SimplexInfo.select_line_segment", "self.dot_product_table[1, 1] = self.dot_product_table[j, j]", "self.dot_product_table[1, 1] = self.dot_product_table[i, i]", ["R-DOTTABLE", "select_line_segment"]),
+    M(["C09"], "dottable-face-selector-pair", "distance3d/gjk/_gjk_original.py", "SimplexInfo.select_face", "(j, k) if k < j else (k, j)", "(j, i) if i < j else (i, j)", ["R-DOTTABLE", "select_face"], nth=0),
     M(["C15", "C16"], "hydro-forces-unpack-swapped", "distance3d/hydroelastic_contact/_forces.py", "contact_surface_forces",
       "(coms[intersection_idx], forces[intersection_idx], areas[intersection_idx], triangle)", "(forces[intersection_idx], coms[intersection_idx], areas[intersection_idx], triangle)", ["R-UNPACK", "contact_surface_forces"]),
     M(["C05", "C06"], "tree-insert-unpack-swapped", "distance3d/aabb_tree.py", "insert_aabbs", "(root, nodes, aabbs, filled_len)", "(root, aabbs, nodes, filled_len)", ["R-"]),
